@@ -1171,8 +1171,11 @@ class C16(ProverCheck):
             secret = rng.random() < 0.5
             expect.append(v)
             if secret:
-                inputs.append({"kind": "priv", "t": "I", "v": v})
-                return {"ref": len(inputs) - 1, "t": "I", "secret": True}
+                # a secret boolean leaf is, half of the time, of the library's boolean type (LinCombBool)
+                t = "B" if (k == "bool" and rng.random() < 0.5) else "I"
+                ref = sum(1 for x in inputs if x["t"] == t)
+                inputs.append({"kind": "priv", "t": t, "v": v})
+                return {"ref": ref, "t": t, "secret": True}
             return {"k": v, "t": "I"}
         if k == "list":
             return [self.gen_value(rng, x, inputs, expect, oor) for x in sc[1]]
@@ -1397,7 +1400,8 @@ class C16(ProverCheck):
                     if not (0 <= v["k"] < sc_[1]):
                         plain_oor = True
                 else:
-                    val = plan["inputs"][v["ref"] % len(plan["inputs"])]["v"]
+                    ints = [x for x in plan["inputs"] if x["t"] == "I"]
+                    val = ints[v["ref"] % len(ints)]["v"]
                     if not (0 <= val < (1 << (sc_[1] - 1).bit_length())):
                         secret_oor = True
         walk(sc, plan["body"][0]["value"])
